@@ -1,4 +1,259 @@
-import Rngs.Model.Xoshiro
+/-
+  C03 — IsaacRng / Isaac64Rng are Bob Jenkins' ISAAC / ISAAC-64.
+
+  "For every 32-byte seed, IsaacRng::from_seed and Isaac64Rng::from_seed produce at every
+  position the word stream of Bob Jenkins' reference isaac() / isaac64() after randinit(TRUE),
+  where the seed's little-endian words fill the first 8 (resp. 4) seed slots and all other
+  slots are zero, and each 256-word block is handed out in the reference order.
+  seed_from_u64(0) reproduces the reference generator used unseeded."
+
+  Reference: `Rngs.Spec.Jenkins` (rolled `isaac()`, `randinit(flag)`, the `rand()` macro that
+  reads `randrsl[--randcnt]`), written from rand.c / isaac64.c.
+  Model: `Rngs.Model.Isaac` (unrolled two-half `generate` that fills `results` backwards,
+  `init` with premixed constants, `BlockRng` / `BlockRng64` buffering), tied to the Rust code
+  by differential testing.
+
+  Everything is proved once, for any word width `w`, any reference `Variant w` and any model
+  `Params w` that `Match` (`Rngs.Lib.IsaacRefine`), and instantiated with
+  `match32 : Match isaac32 params32` and `match64 : Match isaac64 params64`.
+
+  Correspondence of states (`IsaacRefine.concCore`, `absCtx` below):
+      mem ↔ randmem (mm),   a, b, c ↔ randa, randb, randc,
+      results[255 - i] ↔ randrsl[i],   index ↔ RANDSIZ - randcnt.
+
+  All theorems are for every seed byte string (the defaults of `le32At`/`le64At` are not
+  reached when the seed has its 32 bytes, which is the only length Rust admits); all
+  `2^256` seeds and all stream positions `k : Nat` are covered.  Nothing is partial.
+-/
+import Rngs.Lib.IsaacRefine
+import Rngs.Lib.IsaacRefineInit
+import Rngs.Lib.IsaacRefineStream
 namespace Rngs.C03
-theorem placeholder : True := trivial
+open Rngs Rngs.Isaac Rngs.Spec Rngs.IsaacRefine
+
+/-! ## 1. one `generate` = one `isaac()` -/
+
+/-- abstraction: a model core with its results buffer ↦ reference context
+    (`randrsl[i] = results[255 - i]`) -/
+def absCtx {w : Nat} (core : Core w) (hm : core.mem.size = 256)
+    (res : Array (BitVec w)) (hr : res.size = 256) (cnt : Nat) : Jenkins.Ctx w where
+  randcnt := cnt
+  randrsl := (Vector.mk res hr).reverse
+  randmem := Vector.mk core.mem hm
+  randa := core.a
+  randb := core.b
+  randc := core.c
+
+/-- Generic form.  For every core whose `mem` has 256 words and every 256-word results buffer,
+    `generate` computes `isaac()` of the abstracted context: the new `mem, a, b, c` are the new
+    `randmem, randa, randb, randc`, and the new `results[255 - i]` is the new `randrsl[i]`. -/
+theorem generate_eq_isaac {w : Nat} {v : Jenkins.Variant w} {p : Params w} (hm : Match v p)
+    (core : Core w) (hmem : core.mem.size = 256)
+    (res : Array (BitVec w)) (hres : res.size = 256) (cnt : Nat) :
+    let out := generate p core res
+    let ctx' := Jenkins.isaac v (absCtx core hmem res hres cnt)
+    out.2.mem = ctx'.randmem.toArray ∧ out.2.a = ctx'.randa ∧ out.2.b = ctx'.randb ∧
+      out.2.c = ctx'.randc ∧ out.1.size = 256 ∧
+      ∀ i (hi : i < 256), rd out.1 (255 - i) = ctx'.randrsl[i] := by
+  intro out ctx'
+  have h : out = (ctx'.randrsl.reverse.toArray, concCore ctx') :=
+    generate_conc_any hm (absCtx core hmem res hres cnt) res hres
+  rw [h]
+  refine ⟨rfl, rfl, rfl, rfl, by simp, ?_⟩
+  intro i hi
+  have e : 255 - (255 - i) = i := by omega
+  simp only [rd_reverse _ _ (show 255 - i < 256 by omega), e]
+
+/-- IsaacCore::generate = isaac() of rand.c -/
+theorem generate_eq_isaac32 (core : Core 32) (hmem : core.mem.size = 256)
+    (res : Array U32) (hres : res.size = 256) (cnt : Nat) :
+    let out := generate params32 core res
+    let ctx' := Jenkins.isaac Jenkins.isaac32 (absCtx core hmem res hres cnt)
+    out.2.mem = ctx'.randmem.toArray ∧ out.2.a = ctx'.randa ∧ out.2.b = ctx'.randb ∧
+      out.2.c = ctx'.randc ∧ out.1.size = 256 ∧
+      ∀ i (hi : i < 256), rd out.1 (255 - i) = ctx'.randrsl[i] :=
+  generate_eq_isaac match32 core hmem res hres cnt
+
+/-- Isaac64Core::generate = isaac64() of isaac64.c -/
+theorem generate_eq_isaac64 (core : Core 64) (hmem : core.mem.size = 256)
+    (res : Array U64) (hres : res.size = 256) (cnt : Nat) :
+    let out := generate params64 core res
+    let ctx' := Jenkins.isaac Jenkins.isaac64 (absCtx core hmem res hres cnt)
+    out.2.mem = ctx'.randmem.toArray ∧ out.2.a = ctx'.randa ∧ out.2.b = ctx'.randb ∧
+      out.2.c = ctx'.randc ∧ out.1.size = 256 ∧
+      ∀ i (hi : i < 256), rd out.1 (255 - i) = ctx'.randrsl[i] :=
+  generate_eq_isaac match64 core hmem res hres cnt
+
+/-- the hypotheses are satisfiable: the cores and buffers the constructors build -/
+example (seed : List U8) : (fromSeedCore32 seed).mem.size = 256 ∧
+    (fromSeed32 seed).results.size = 256 := by
+  have h := extend_eq (readU32s seed 8) (by simp [readU32s]) Jenkins.zeros
+  have h2 := init_two_conc match32 (Jenkins.seedCtx (readU32s seed 8) Jenkins.zeros)
+  unfold fromSeedCore32 fromSeed32 BlockRng.new
+  rw [h, h2]
+  exact ⟨by simp [concCore], by simp [blockCore32, RAND_SIZE]⟩
+
+/-! ## 2. the literal constants of `init` -/
+
+/-- `0x1367df5a, 0x95d90059, …` are `a = … = h = 0x9e3779b9` after four `mix` -/
+theorem golden32 :
+    params32.golden =
+      toM (iter Jenkins.isaac32.mix 4
+        ⟨0x9e3779b9#32, 0x9e3779b9#32, 0x9e3779b9#32, 0x9e3779b9#32,
+         0x9e3779b9#32, 0x9e3779b9#32, 0x9e3779b9#32, 0x9e3779b9#32⟩) := by decide
+
+/-- `0x647c4677a2884b7c, …` are `a = … = h = 0x9e3779b97f4a7c13` after four `mix` -/
+theorem golden64 :
+    params64.golden =
+      toM (iter Jenkins.isaac64.mix 4
+        ⟨0x9e3779b97f4a7c13#64, 0x9e3779b97f4a7c13#64, 0x9e3779b97f4a7c13#64, 0x9e3779b97f4a7c13#64,
+         0x9e3779b97f4a7c13#64, 0x9e3779b97f4a7c13#64, 0x9e3779b97f4a7c13#64, 0x9e3779b97f4a7c13#64⟩) := by
+  decide
+
+/-! ## 3. `init` = `randinit` (before its closing `isaac()` call) -/
+
+/-- `init p key 2`, the key being the `randrsl` of `ctx`, is `randinit(ctx, TRUE)`:
+    `mem ↦ randmem`, `a = b = c = 0`.  (Pass 1 of the model reads each 8-word chunk of the key
+    from `mem` before overwriting it; the reference reads it from `randrsl`.) -/
+theorem init2_eq_randinit {w : Nat} {v : Jenkins.Variant w} {p : Params w} (hm : Match v p)
+    (ctx : Jenkins.Ctx w) :
+    init p ctx.randrsl.toArray 2 = concCore (Jenkins.randinitPre v true ctx) :=
+  init_two_conc hm ctx
+
+/-- `init p zeros 1` is `randinit(ctx, FALSE)` for every `ctx` (which reads neither `randrsl`
+    nor the old `randmem`): an all-zero key adds nothing in its single pass. -/
+theorem init1_eq_randinit {w : Nat} {v : Jenkins.Variant w} {p : Params w} (hm : Match v p)
+    (ctx : Jenkins.Ctx w) :
+    init p (Jenkins.zeros (w := w)).toArray 1 = concCore (Jenkins.randinitPre v false ctx) :=
+  init_one_conc hm ctx
+
+/-- the eight little-endian words of a 32-byte seed -/
+def seedWords32 (seed : List U8) : List U32 :=
+  [le32At seed 0, le32At seed 1, le32At seed 2, le32At seed 3,
+   le32At seed 4, le32At seed 5, le32At seed 6, le32At seed 7]
+
+/-- the four little-endian words of a 32-byte seed -/
+def seedWords64 (seed : List U8) : List U64 :=
+  [le64At seed 0, le64At seed 1, le64At seed 2, le64At seed 3]
+
+/-- `IsaacCore::from_seed` is the `randinit(TRUE)` state for `randrsl = seed words ++ zeros` -/
+theorem fromSeedCore32_eq (seed : List U8) (mem0 : Vec 32) :
+    fromSeedCore32 seed = concCore (Jenkins.randinitPre Jenkins.isaac32 true
+      (Jenkins.seedCtx (seedWords32 seed) mem0)) := by
+  have e : readU32s seed 8 = seedWords32 seed := rfl
+  unfold fromSeedCore32
+  rw [e, extend_eq (seedWords32 seed) (by simp [seedWords32]) mem0]
+  exact init_two_conc match32 _
+
+/-- `Isaac64Core::from_seed` likewise -/
+theorem fromSeedCore64_eq (seed : List U8) (mem0 : Vec 64) :
+    fromSeedCore64 seed = concCore (Jenkins.randinitPre Jenkins.isaac64 true
+      (Jenkins.seedCtx (seedWords64 seed) mem0)) := by
+  have e : readU64s seed 4 = seedWords64 seed := rfl
+  unfold fromSeedCore64
+  rw [e, extend_eq (seedWords64 seed) (by simp [seedWords64]) mem0]
+  exact init_two_conc match64 _
+
+/-- `IsaacCore::seed_from_u64(0)` is the `randinit(FALSE)` state, whatever `ctx` held before -/
+theorem seedFromU64Core32_zero (ctx : Jenkins.Ctx 32) :
+    seedFromU64Core32 0 = concCore (Jenkins.randinitPre Jenkins.isaac32 false ctx) := by
+  have e : [(0 : U64).setWidth 32, ((0 : U64) >>> 32).setWidth 32] = [0#32, 0#32] := by decide
+  unfold seedFromU64Core32
+  rw [e, extend_eq [0#32, 0#32] (by simp) Jenkins.zeros,
+    seedCtx_zero_randrsl [0#32, 0#32] (by simp)]
+  exact init_one_conc match32 ctx
+
+/-- `Isaac64Core::seed_from_u64(0)` likewise -/
+theorem seedFromU64Core64_zero (ctx : Jenkins.Ctx 64) :
+    seedFromU64Core64 0 = concCore (Jenkins.randinitPre Jenkins.isaac64 false ctx) := by
+  unfold seedFromU64Core64
+  rw [extend_eq [(0 : U64)] (by simp) Jenkins.zeros, seedCtx_zero_randrsl [(0 : U64)] (by simp)]
+  exact init_one_conc match64 ctx
+
+/-! ## 4. the streams -/
+
+/-- the `k`-th (0-based) `next_u32()` of an `IsaacRng` -/
+def nextU32s (r : Rng32) (k : Nat) : U32 := stream (BlockRng.nextU32 blockCore32) r k
+
+/-- the `k`-th (0-based) `next_u64()` of an `Isaac64Rng` -/
+def nextU64s (r : Rng64) (k : Nat) : U64 := stream (BlockRng64.nextU64 blockCore64) r k
+
+/-- the buffering layer: a wrapper in sync with a reference context
+    (`index = 256 - randcnt`, `results = reverse randrsl`, `core ↔ context`) produces the
+    reference `rand()` stream from there on — any starting point, both widths. -/
+theorem synced_stream32 (r : Rng32) (ctx : Jenkins.Ctx 32) (h : Sync (view32 r) ctx) (k : Nat) :
+    nextU32s r k = Jenkins.rand Jenkins.isaac32 ctx k := by
+  unfold nextU32s
+  rw [stream_view _ _ view32 nextU32_view k r]
+  exact sync_stream match32 k _ _ h
+
+theorem synced_stream64 (r : Rng64) (ctx : Jenkins.Ctx 64) (h : Sync (view64 r) ctx) (k : Nat) :
+    nextU64s r k = Jenkins.rand Jenkins.isaac64 ctx k := by
+  unfold nextU64s
+  rw [stream_view _ _ view64 nextU64_view k r]
+  exact sync_stream match64 k _ _ h
+
+/-- **IsaacRng::from_seed.**  For every seed and every position `k`, the `k`-th `next_u32` is the
+    `k`-th `rand()` of the reference after `randinit(TRUE)` with
+    `randrsl = [8 little-endian seed words, 0, …, 0]` (and any prior `randmem`). -/
+theorem fromSeed32_stream (seed : List U8) (mem0 : Vec 32) (k : Nat) :
+    nextU32s (fromSeed32 seed) k
+      = Jenkins.rand Jenkins.isaac32 (Jenkins.seeded Jenkins.isaac32 (seedWords32 seed) mem0) k := by
+  unfold nextU32s fromSeed32
+  rw [stream_view _ _ view32 nextU32_view k _, view32_new, fromSeedCore32_eq seed mem0]
+  exact fresh_stream match32 true _ k
+
+/-- **Isaac64Rng::from_seed.**  For every seed and every position `k`, the `k`-th `next_u64` is
+    the `k`-th `rand()` of the reference ISAAC-64 after `randinit(TRUE)` with
+    `randrsl = [4 little-endian seed words, 0, …, 0]`. -/
+theorem fromSeed64_stream (seed : List U8) (mem0 : Vec 64) (k : Nat) :
+    nextU64s (fromSeed64 seed) k
+      = Jenkins.rand Jenkins.isaac64 (Jenkins.seeded Jenkins.isaac64 (seedWords64 seed) mem0) k := by
+  unfold nextU64s fromSeed64
+  rw [stream_view _ _ view64 nextU64_view k _, view64_new, fromSeedCore64_eq seed mem0]
+  exact fresh_stream match64 true _ k
+
+/-- **IsaacRng::seed_from_u64(0)** is the reference generator used unseeded
+    (`randinit(FALSE)`, whatever the context held before). -/
+theorem seedFromU64_32_zero_stream (rsl0 mem0 : Vec 32) (k : Nat) :
+    nextU32s (seedFromU64_32 0) k
+      = Jenkins.rand Jenkins.isaac32 (Jenkins.unseeded Jenkins.isaac32 rsl0 mem0) k := by
+  unfold nextU32s seedFromU64_32 Jenkins.unseeded
+  rw [stream_view _ _ view32 nextU32_view k _, view32_new, seedFromU64Core32_zero]
+  exact fresh_stream match32 false _ k
+
+/-- **Isaac64Rng::seed_from_u64(0)** is the reference ISAAC-64 used unseeded. -/
+theorem seedFromU64_64_zero_stream (rsl0 mem0 : Vec 64) (k : Nat) :
+    nextU64s (seedFromU64_64 0) k
+      = Jenkins.rand Jenkins.isaac64 (Jenkins.unseeded Jenkins.isaac64 rsl0 mem0) k := by
+  unfold nextU64s seedFromU64_64 Jenkins.unseeded
+  rw [stream_view _ _ view64 nextU64_view k _, view64_new, seedFromU64Core64_zero]
+  exact fresh_stream match64 false _ k
+
+/-! ## 5. anchors -/
+
+/-- `Sync` is satisfiable: after its first `next_u32` a fresh `IsaacRng` is in sync with the
+    reference after its first `rand()` -/
+example (seed : List U8) :
+    Sync (view32 (BlockRng.nextU32 blockCore32 (fromSeed32 seed)).2)
+      (Jenkins.rand1 Jenkins.isaac32
+        (Jenkins.seeded Jenkins.isaac32 (seedWords32 seed) Jenkins.zeros)).2 := by
+  rw [(nextU32_view _).2]
+  unfold fromSeed32
+  rw [view32_new, fromSeedCore32_eq seed Jenkins.zeros]
+  exact (fresh_next match32 true _).2
+
+/-- The specification itself, evaluated by the kernel, gives the published first outputs of
+    unseeded ISAAC (rand_isaac's `test_isaac_new_uninitialized`: 0x71D71FD2, 0xB54ADAE7,
+    0xD4788559, 0xC36129FA, …). -/
+example :
+    (List.range 4).map (Jenkins.rand Jenkins.isaac32
+        (Jenkins.unseeded Jenkins.isaac32 Jenkins.zeros Jenkins.zeros))
+      = [0x71D71FD2#32, 0xB54ADAE7#32, 0xD4788559#32, 0xC36129FA#32] := by decide +kernel
+
+/-- … hence so does the model of `IsaacRng::seed_from_u64(0)`. -/
+example : nextU32s (seedFromU64_32 0) 0 = 0x71D71FD2#32 := by
+  rw [seedFromU64_32_zero_stream Jenkins.zeros Jenkins.zeros 0]
+  decide +kernel
+
 end Rngs.C03
